@@ -173,6 +173,23 @@ Theorem C18_relational_values : forall dm o a b v, relational o = true -> v_bino
 Proof. exact v_relational. Qed.
 Print Assumptions C18_relational_values.
 
+(* mixed precision (exact value model): a comparison of two numbers of any types is the comparison of their
+   exact values - neither operand is narrowed to the type of the other, whichever side it is on - and + / -
+   with a double operand on either side give the exact double *)
+Theorem C18_mixed_precision_compare : forall dm o ta x tb y, relational o = true -> numeric ta -> numeric tb ->
+  v_binop dm o (VNum ta x) (VNum tb y) = Ok (VNum TInt (b2i (rel o (x =? y) (x >? y) (x <? y)))).
+Proof. exact v_compare_exact. Qed.
+Print Assumptions C18_mixed_precision_compare.
+
+Theorem C18_mixed_precision_add_sub : forall dm o ta x tb y,
+  o = Add \/ o = Sub -> numeric ta -> numeric tb ->
+  let t := widest (to_float ta) tb in
+  let r := match o with Add => x + y | _ => x - y end in
+  in_dom t r = true ->
+  v_binop dm o (VNum ta x) (VNum tb y) = Ok (VNum t r) /\ (ta = TDbl \/ tb = TDbl -> t = TDbl).
+Proof. exact v_addsub_widest. Qed.
+Print Assumptions C18_mixed_precision_add_sub.
+
 (* the type of the value of an expression is the type computed on its operator tree with the dispatch table *)
 Theorem C18_expression_type : forall dm e v,
   Shunting.eval val v_unop (v_binop dm) e = Ok v ->
@@ -219,7 +236,13 @@ Example C18_nonvacuous :
   (* typed values: 1+1 is a single 2, 7\2 an integer 3, "a"+1 a Type mismatch *)
   /\ v_enc (v_parse [tN 0 1; tP 233; tN 0 1]) = [0; 0; 1; 2]
   /\ v_enc (v_parse [tN 0 7; tP 244; tN 0 2]) = [0; 0; 0; 3]
-  /\ v_enc (v_parse [tS [97]; tP 233; tN 0 1]) = [1; 13].
+  /\ v_enc (v_parse [tS [97]; tP 233; tN 0 1]) = [1; 13]
+  (* precision is observable: 16777216! = 16777217# is false, 3 > 40000# is false (no overflow),
+     1 + 16777217# is the double 16777218, 40000# AND 1 overflows *)
+  /\ v_enc (v_parse [tN 1 16777216; tP 231; tN 2 16777217]) = [0; 0; 0; 0]
+  /\ v_enc (v_parse [tN 0 3; tP 230; tN 2 40000]) = [0; 0; 0; 0]
+  /\ v_enc (v_parse [tN 0 1; tP 233; tN 2 16777217]) = [0; 0; 2; 16777218]
+  /\ v_enc (v_parse [tN 2 40000; tP 238; tN 0 1]) = [1; 6].
 Proof.
   cbv zeta. repeat split; try (vm_compute; reflexivity).
   - exact tr_unop_no_idx.
